@@ -191,6 +191,44 @@ def check(ctx, only_h1: bool = False, h1_rule: str = "C13-H1") -> None:
                     if o == ">=":
                         ctx.finding("C13-H4", cname + ":keep-branch-store:" + "|".join(sorted(map(str, s.keytexts))), s.where(), "the keeping branch writes row field %s" % sorted(map(str, s.keytexts)))
     ctx.instance("C13-H4", "keeping branch writes no row field", f.loc(), ok=True)
+    # ---------------------------------------------------------------- H6
+    # every object that receives a confidence also receives the verdict that goes with it
+    from ..rows import package_stores
+
+    ctx.rule("C13-H6", "each row variable that is given a confidence is also the target of the demotion under the threshold test", 1)
+    all_conf = [k for k in package_stores(ctx) if k.func is f and k.keytexts & conf and k.kind == "assign"]
+    all_dem = [k for k in package_stores(ctx) if k.func is f and solved in k.keytexts and k.kind == "assign"]
+    dem_targets = {unparse(k.target.value) for k in all_dem}
+    for k in all_conf:
+        tv = unparse(k.target.value)
+        ok = tv in dem_targets
+        ctx.instance("C13-H6", "confidence stored on %s; demotion targets: %s" % (tv, sorted(dem_targets)), k.where(), ok=ok)
+        if not ok:
+            ctx.finding("C13-H6", cname + ":confidence-without-verdict:" + tv, k.where(), "%s receives a confidence but is never the target of the demotion (solved := False under confidence < threshold): such rows stay solved whatever their confidence" % tv)
+    # ---------------------------------------------------------------- H7
+    # no path returns the batch with the confidence filter skipped or abandoned half-way
+    ctx.rule("C13-H7", "a failure of the confidence filter cannot be swallowed between predict and the return of the rows", 1)
+    runf = prog.func("synrbl.balancing.Balancer.__run_pipeline")
+    swallowed = None
+    prev, cur = st.call, getattr(st.call, "_parent", None)
+    while cur is not None and cur is not runf.node:
+        if isinstance(cur, ast.Try) and any(prev is b or prev in ast.walk(b) for b in cur.body):
+            for h in cur.handlers:
+                if not any(isinstance(x, ast.Raise) for x in ast.walk(h)):
+                    swallowed = h
+        prev, cur = cur, getattr(cur, "_parent", None)
+    # inside predict: the per-row loop must not sit in a swallowing handler either
+    for d in all_dem:
+        prev, cur = d.node, getattr(d.node, "_parent", None)
+        while cur is not None and cur is not f.node:
+            if isinstance(cur, ast.Try) and any(prev is b or prev in ast.walk(b) for b in cur.body):
+                for h in cur.handlers:
+                    if not any(isinstance(x, ast.Raise) for x in ast.walk(h)):
+                        swallowed = swallowed or h
+            prev, cur = cur, getattr(cur, "_parent", None)
+    ctx.instance("C13-H7", "predict call / demotion loop not enclosed by a handler that continues", st.where(), ok=swallowed is None)
+    if swallowed is not None:
+        ctx.finding("C13-H7", "Balancer.__run_pipeline:predict-failure-swallowed", "synrbl/%s:%d" % ("balancing.py" if swallowed in list(ast.walk(runf.node)) else "confidence_prediction.py", swallowed.lineno), "an exception raised while the confidence filter runs is caught and the rows are returned anyway: MCS results leave solved without a confidence, or only the rows handled before the failure are demoted")
     # ---------------------------------------------------------------- H5
     bcls = prog.cls("synrbl.balancing.Balancer")
     hash_helpers = _hash_helpers(ctx)
